@@ -14,6 +14,7 @@ import (
 	"fmt"
 	"reflect"
 	"runtime"
+	"strconv"
 	"strings"
 	"sync"
 	"testing"
@@ -125,7 +126,7 @@ func (s *Sched) notef(sig bool, f string, a ...any) {
 		s.sighash = mixs(s.sighash, line)
 	}
 	if s.verbose {
-		s.trace = append(s.trace, fmt.Sprintf("%12v  %s", time.Since(s.start), line))
+		s.trace = push(s.trace, padLeft(time.Since(s.start).String(), 12)+"  "+line)
 	}
 	s.unlock()
 }
@@ -262,7 +263,7 @@ func Go(site string, fn func()) {
 	}
 	s.next++
 	t := &task{id: s.next, name: site, wake: make(chan struct{}), kill: make(chan struct{}), site: "spawn"}
-	s.tasks = append(s.tasks, t)
+	s.tasks = push(s.tasks, t)
 	s.unlock()
 	// The go statement itself stays visible to the race detector: the
 	// spawn edge parent -> child is part of the program's happens-before.
@@ -300,7 +301,7 @@ func (s *Sched) exit(t *task) {
 	t.state = stDead
 	for i, x := range s.tasks {
 		if x == t {
-			s.tasks = append(s.tasks[:i:i], s.tasks[i+1:]...)
+			s.tasks = removeAt(s.tasks, i)
 			break
 		}
 	}
@@ -576,7 +577,7 @@ func NewTicker(site string, d time.Duration) *time.Ticker {
 	t := time.NewTicker(d)
 	if s := S; s != nil {
 		s.lock()
-		s.tickers = append(s.tickers, tickerRec{t, site})
+		s.tickers = push(s.tickers, tickerRec{t, site})
 		s.unlock()
 	}
 	return t
@@ -589,7 +590,7 @@ func NewTicker(site string, d time.Duration) *time.Ticker {
 func TickingTickers(wait time.Duration) []string {
 	s := S
 	s.lock()
-	ts := append([]tickerRec(nil), s.tickers...)
+	ts := clone(s.tickers)
 	s.unlock()
 	for _, r := range ts {
 		select {
@@ -602,7 +603,7 @@ func TickingTickers(wait time.Duration) []string {
 	for _, r := range ts {
 		select {
 		case <-r.t.C:
-			out = append(out, r.site)
+			out = push(out, r.site)
 		default:
 		}
 	}
@@ -638,7 +639,7 @@ func Live() []string {
 	s.lock()
 	for _, t := range s.tasks {
 		if t != s.cur && t.state != stDead {
-			out = append(out, fmt.Sprintf("%s@%s", t.name, t.site))
+			out = push(out, t.name+"@"+t.site)
 		}
 	}
 	s.unlock()
@@ -655,13 +656,16 @@ func Now() time.Duration { return time.Since(S.start) }
 //
 //go:norace
 func (s *Sched) runSched(main func()) {
-	hide() // the controller never takes part in the program's happens-before
-	defer unhide()
 	S = s
 	s.start = time.Now()
-	Go("main", main)
-	horizon := time.NewTimer(s.Horizon)
+	// Spawned before the controller hides itself: the first task must
+	// inherit everything that happened before the run (package inits, the
+	// scenario's captured variables).
+	horizon := time.NewTimer(s.Horizon) // before the spawn: also warms time's lazy initialisation visibly
 	defer horizon.Stop()
+	Go("main", main)
+	hide() // from here on the controller takes no part in the program's happens-before
+	defer unhide()
 	var run []*task
 	for {
 		synctest.Wait()
@@ -672,14 +676,14 @@ func (s *Sched) runSched(main func()) {
 		run = run[:0]
 		for _, t := range s.tasks {
 			if t.state == stRunnable {
-				run = append(run, t)
+				run = push(run, t)
 			}
 			if t.state == stRunning && s.run.verdict == "" {
 				// Everything is durably blocked, yet this task never
 				// reached a scheduling point: it blocks in something
 				// the simulator does not control.
 				s.run.verdict, s.run.oracle, s.run.cause = "error", "unscheduled-block", t.name
-				s.run.msg = fmt.Sprintf("task %d (%s) blocked outside the scheduler after %s", t.id, t.name, t.site)
+				s.run.msg = "task " + strconv.Itoa(t.id) + " (" + t.name + ") blocked outside the scheduler after " + t.site
 				s.stop = "error"
 			}
 		}
@@ -702,7 +706,9 @@ func (s *Sched) runSched(main func()) {
 		if s.last != nil {
 			for i, t := range run {
 				if t == s.last {
-					copy(run[1:i+1], run[:i])
+					for j := i; j > 0; j-- {
+						run[j] = run[j-1]
+					}
 					run[0] = t
 					break
 				}
@@ -723,7 +729,7 @@ func (s *Sched) runSched(main func()) {
 			s.sighash = mixs(mixs(s.sighash, t.name), t.site)
 		}
 		if s.verbose {
-			s.trace = append(s.trace, fmt.Sprintf("%12v  run #%d %s @%s (choice %d/%d)", time.Since(s.start), t.id, t.name, t.site, k, len(run)))
+			s.trace = push(s.trace, padLeft(time.Since(s.start).String(), 12)+"  run #"+strconv.Itoa(t.id)+" "+t.name+" @"+t.site+" (choice "+strconv.Itoa(k)+"/"+strconv.Itoa(len(run))+")")
 		}
 		t.state = stRunning
 		s.cur = t
@@ -742,15 +748,22 @@ func (s *Sched) runSched(main func()) {
 	s.dying = true
 	s.run.leftover = s.run.leftover[:0]
 	for _, t := range s.tasks {
-		s.run.leftover = append(s.run.leftover, fmt.Sprintf("%s@%s", t.name, t.site))
+		s.run.leftover = push(s.run.leftover, t.name+"@"+t.site)
 	}
-	ts := append([]*task(nil), s.tasks...)
+	ts := clone(s.tasks)
 	s.mu.Unlock()
 	for _, t := range ts {
 		close(t.kill)
 		synctest.Wait()
 	}
 	S = nil
+}
+
+func padLeft(s string, n int) string {
+	for len(s) < n {
+		s = " " + s
+	}
+	return s
 }
 
 // Spec describes one simulated run.
@@ -784,7 +797,9 @@ func Execute(t *testing.T, sp Spec) (out *Outcome) {
 	}
 	rc.s = s
 	var bubblePanic any
-	func() {
+	// A sub-test per run: a failure that the testing package itself records
+	// (e.g. "race detected during execution of test") must not end the worker.
+	t.Run("run", func(t *testing.T) {
 		defer func() {
 			if r := recover(); r != nil {
 				bubblePanic = r
@@ -803,7 +818,7 @@ func Execute(t *testing.T, sp Spec) (out *Outcome) {
 			}
 			s.runSched(func() { sp.Main(rc) })
 		})
-	}()
+	})
 	S = nil
 	out = rc.outcome()
 	if bubblePanic != nil && out.Verdict != "violation" {
